@@ -154,6 +154,9 @@ func genResp(t *rapid.T) respSpec {
 	if rapid.IntRange(0, 3).Draw(t, "cachecontrol") == 0 {
 		s.extraHdr["Cache-Control"] = "max-age=60, must-revalidate"
 	}
+	if rapid.IntRange(0, 3).Draw(t, "acceptranges") == 0 {
+		s.extraHdr["Accept-Ranges"] = "bytes"
+	}
 	if rapid.IntRange(0, 5).Draw(t, "informational") == 0 {
 		s.early = rapid.SampledFrom([][]int{{103}, {103, 103}, {102}}).Draw(t, "early")
 	}
@@ -219,7 +222,7 @@ type reqSpec struct {
 func genReq(t *rapid.T) reqSpec {
 	return reqSpec{
 		method:         rapid.SampledFrom([]string{"GET", "GET", "GET", "POST", "HEAD"}).Draw(t, "method"),
-		acceptEncoding: rapid.SampledFrom([]string{"gzip", "gzip", "gzip, deflate", "gzip, deflate, br", "-", "deflate", "br", "identity", ""}).Draw(t, "ae"),
+		acceptEncoding: rapid.SampledFrom([]string{"gzip", "gzip", "gzip, deflate", "gzip, deflate, br", "-", "deflate", "br", "identity", "", "identity;q=1, *;q=0", "*;q=0", "br, *;q=0", "zstd", "compress, identity"}).Draw(t, "ae"),
 		accept:         rapid.SampledFrom([]string{"", "*/*", "text/html", "text/event-stream", "application/json, text/event-stream"}).Draw(t, "accept"),
 	}
 }
@@ -292,7 +295,7 @@ func judge(fatalf func(string, ...any), s respSpec, r reqSpec, w wire, plain wir
 		if bodyVisible && !bytes.Equal(w.body, plain.body) {
 			fatalf("uncompressed body altered: %d bytes, without gzip handler %d bytes\n%s", len(w.body), len(plain.body), ctx)
 		}
-		for _, h := range []string{"Content-Encoding", "Content-Length", "Content-Type", "X-Inner", "Etag"} {
+		for _, h := range []string{"Content-Encoding", "Content-Length", "Content-Type", "X-Inner", "Etag", "Accept-Ranges"} {
 			a, b := w.header.Get(h), plain.header.Get(h)
 			if h == "Content-Length" && !s.setLength {
 				// the handler announced no length: whether the HTTP stack computes one or uses
